@@ -629,3 +629,117 @@ theorem BCnt.tryAlloc_some {b b' : Block} {S} {k idx : Nat} (hI : BInv b S) (hC 
     · simp at ht
 
 end AsmjitVerif.JitAlloc
+
+namespace AsmjitVerif.JitAlloc
+
+/-! ### locating a span from any of its granules (query) -/
+
+
+/-- length of the longest suffix of `l` whose elements satisfy `p` -/
+theorem takeWhile_reverse_length {α} (p : α → Bool) (pre suf : List α) (hs : ∀ x ∈ suf, p x = true)
+    (hp : pre = [] ∨ ∃ h : pre ≠ [], p (pre.getLast h) = false) :
+    ((pre ++ suf).reverse.takeWhile p).length = suf.length := by
+  rw [List.reverse_append]
+  rw [List.takeWhile_append_of_pos (by intro x hx; exact hs x (List.mem_reverse.mp hx))]
+  rcases hp with rfl | ⟨hne, hl⟩
+  · simp
+  · have : pre.reverse.takeWhile p = [] := by
+      cases hr : pre.reverse with
+      | nil => simp
+      | cons y ys =>
+        have hy : y = pre.getLast hne := by
+          have := List.head_reverse (l := pre) (by simpa using hne)
+          simp [hr] at this
+          exact this
+        simp [List.takeWhile_cons, hy, hl]
+    simp [this]
+
+
+
+
+
+theorem bit_eq_getElem (l : List Bool) (i : Nat) (h : i < l.length) : bit l i = l[i] := by
+  simp [bit, List.getD, h]
+
+theorem spanStart_eq (used stop : List Bool) (idx s0 : Nat) (hs : s0 ≤ idx) (hlenU : idx ≤ used.length) (hlenS : idx ≤ stop.length)
+    (hin : ∀ i, s0 ≤ i → i < idx → bit used i = true ∧ bit stop i = false)
+    (hb : s0 = 0 ∨ (bit used (s0 - 1) = false ∨ bit stop (s0 - 1) = true)) : spanStart used stop idx = s0 := by
+  unfold spanStart
+  have hl : ((used.take idx).zip (stop.take idx)).length = idx := by simp; omega
+  have hget : ∀ i (hi : i < ((used.take idx).zip (stop.take idx)).length),
+      ((used.take idx).zip (stop.take idx))[i] = (bit used i, bit stop i) := by
+    intro i hi
+    rw [hl] at hi
+    simp [List.getElem_zip, bit_eq_getElem used i (by omega), bit_eq_getElem stop i (by omega)]
+  have hsplit := (List.take_append_drop s0 ((used.take idx).zip (stop.take idx))).symm
+  have key := takeWhile_reverse_length (fun (x : Bool × Bool) => x.1 && !x.2)
+    (((used.take idx).zip (stop.take idx)).take s0) (((used.take idx).zip (stop.take idx)).drop s0) (by
+      intro x hx
+      obtain ⟨k, hk, rfl⟩ := List.mem_iff_getElem.mp hx
+      simp only [List.length_drop, hl] at hk
+      rw [List.getElem_drop, hget]
+      obtain ⟨a, b⟩ := hin (s0 + k) (by omega) (by omega)
+      simp [a, b]) (by
+      by_cases h0 : s0 = 0
+      · left; simp [h0]
+      · right
+        have hne : ((used.take idx).zip (stop.take idx)).take s0 ≠ [] := by
+          intro hnil
+          have := congrArg List.length hnil
+          rw [List.length_take, hl] at this
+          simp at this; omega
+        refine ⟨hne, ?_⟩
+        rw [List.getLast_eq_getElem]
+        simp only [List.length_take, hl, List.getElem_take]
+        have e : min s0 idx - 1 = s0 - 1 := by omega
+        rw [hget]
+        simp only [e]
+        rcases hb with hb | hb | hb
+        · omega
+        · simp [hb]
+        · simp [hb])
+  rw [← hsplit] at key
+  rw [key]
+  simp only [List.length_drop, hl]
+  omega
+
+
+
+
+
+/-- from any granule of a live span `query`'s three look-ups find the span: the granule is used, the next stop bit is the span's
+last granule, the walk back ends at its first granule -/
+theorem BCore.locate {b : Block} {S} {s0 n0 idx : Nat} (h : BCore b S) (hS : S s0 n0) (h1 : s0 ≤ idx) (h2 : idx < s0 + n0) :
+    bit b.used idx = true ∧ JitAlloc.indexOfStop b.stop idx = s0 + n0 - 1 ∧ spanStart b.used b.stop idx = s0 := by
+  obtain ⟨i1, i2, i3⟩ := h.inside s0 n0 hS
+  have nostop : ∀ k, s0 ≤ k → k < s0 + n0 - 1 → bit b.stop k = false := by
+    intro k hk1 hk2
+    cases hb : bit b.stop k
+    · rfl
+    · exfalso
+      rcases (h.stop k (by omega)).mp hb with ⟨hp, rfl⟩ | ⟨s, n, hS', e⟩
+      · have := padN_pos b hp; omega
+      · obtain ⟨j1, j2, j3⟩ := h.inside s n hS'
+        rcases h.disj s n s0 n0 hS' hS with ⟨rfl, rfl⟩ | c | c <;> omega
+  refine ⟨(h.used idx (by omega)).mpr (Or.inr ⟨s0, n0, hS, h1, h2⟩), ?_, ?_⟩
+  · apply indexOfStop_eq _ _ _ (by omega) (by rw [h.lenS]; omega)
+    · exact (h.stop (s0 + n0 - 1) (by omega)).mpr (Or.inr ⟨s0, n0, hS, by omega⟩)
+    · intro k hk1 hk2; exact nostop k (by omega) hk2
+  · apply spanStart_eq _ _ _ _ h1 (by rw [h.lenU]; omega) (by rw [h.lenS]; omega)
+    · intro i a c
+      exact ⟨(h.used i (by omega)).mpr (Or.inr ⟨s0, n0, hS, a, by omega⟩), nostop i a (by omega)⟩
+    · by_cases h0 : s0 = 0
+      · exact Or.inl h0
+      · right
+        cases hu : bit b.used (s0 - 1)
+        · exact Or.inl rfl
+        · right
+          rcases (h.used (s0 - 1) (by omega)).mp hu with ⟨hp, e0⟩ | ⟨s, n, hS', a, c⟩
+          · exact (h.stop (s0 - 1) (by omega)).mpr (Or.inl ⟨hp, e0⟩)
+          · apply (h.stop (s0 - 1) (by omega)).mpr
+            refine Or.inr ⟨s, n, hS', ?_⟩
+            rcases h.disj s n s0 n0 hS' hS with ⟨rfl, rfl⟩ | d | d <;> omega
+
+
+
+end AsmjitVerif.JitAlloc
